@@ -219,6 +219,17 @@ pub fn gen(seed: u64, tier: &str) -> Vec<String> {
     let mut rng = Rng::new(seed ^ 0xC18);
     let thorough = tier == "thorough";
     let mut lines: Vec<String> = Vec::new();
+    // `asset-hand LE|BE`: the same binary written through the per-record public API
+    // (`BinArchive::new(endian)`, `write_u32`, `AssetSpec::append`, `allocate_at_end`) and read back
+    // with `AssetBinary::from_archive` and with `AssetSpec::from_stream` record by record.
+    let push_hand = |lines: &mut Vec<String>, endian: &str, flags: u32, specs: &[AssetSpec]| {
+        let mut s = format!("c18.{:06} asset-hand {} {}", lines.len(), endian, flags);
+        for sp in specs {
+            s.push(' ');
+            s.push_str(&show_spec(sp));
+        }
+        lines.push(s);
+    };
     let mut push = |lines: &mut Vec<String>, flags: u32, specs: &[AssetSpec]| {
         let mut s = format!("c18.{:06} asset {}", lines.len(), flags);
         for sp in specs {
@@ -301,12 +312,130 @@ pub fn gen(seed: u64, tier: &str) -> Vec<String> {
             planted(&mut rng, &mut lines, position, bad);
         }
     }
+    // long strings (size thresholds) in every string-bearing position: quick rotates the positions,
+    // thorough plants every long string in positions 0 (name), 1, 31, 32 and 33 and rotates the rest
+    let longs = super::aset::long_strings(thorough);
+    for (k, long) in longs.iter().enumerate() {
+        if long.len() < 4000 && thorough {
+            for position in [0usize, 1, 31, 32, 33] {
+                planted(&mut rng, &mut lines, position, long.clone());
+            }
+        }
+        planted(&mut rng, &mut lines, (k * 5 + 2) % 34, long.clone());
+    }
+    // many records / many strings (counts beyond 2^8; thorough: beyond 2^10 pointers)
+    {
+        let n = if thorough { 600 } else { 260 };
+        let specs: Vec<AssetSpec> = (0..n)
+            .map(|i| make_spec(&mut rng, &|k| k == 1 + (i % 51) || (i % 7 == 0 && k == 33)))
+            .collect();
+        push(&mut lines, 5, &specs);
+    }
+    // the per-record entry points on archives of both byte orders
+    for endian in ["LE", "BE"] {
+        push_hand(&mut lines, endian, 0xA1B2_C3D4, &[]);
+        push_hand(&mut lines, endian, 1, &[none.clone()]);
+        push_hand(&mut lines, endian, 0x0102_0304, &[all.clone(), none.clone(), all.clone()]);
+        for i in 1..=51usize {
+            if thorough || i % 4 == 1 || i >= 30 {
+                let one = make_spec(&mut rng, &|k| k == i);
+                let other = rand_spec(&mut rng);
+                push_hand(&mut lines, endian, rng.next() as u32, &[one, other]);
+            }
+        }
+        let count = if thorough { 1500 } else { 60 };
+        for _ in 0..count {
+            let n = *rng.pick(&[1usize, 1, 2, 3, 4]);
+            let specs: Vec<AssetSpec> = (0..n).map(|_| rand_spec(&mut rng)).collect();
+            push_hand(&mut lines, endian, rng.next() as u32, &specs);
+        }
+        // a refused string and a long string through the same path
+        let mut bad = rand_spec(&mut rng);
+        bad.name = Some(super::aset::plant(&mut rng, "\u{00E9}", 0));
+        push_hand(&mut lines, endian, 9, &[bad]);
+        let mut long = rand_spec(&mut rng);
+        long.voice = Some(super::aset::long_string(257, 255, '\u{3042}'));
+        long.name = Some(super::aset::run_string(1, 200, '\u{30A2}'));
+        push_hand(&mut lines, endian, 9, &[long]);
+    }
+    // interleave refused calls with ordinary ones (second use on one thread)
+    rng.shuffle(&mut lines);
     lines
+}
+
+fn serialize_by_hand(flags: u32, specs: &[AssetSpec], endian: Endian) -> Result<Vec<u8>, mila::ArchiveError> {
+    let mut archive = BinArchive::new(endian);
+    archive.allocate_at_end(4);
+    archive.write_u32(0, flags)?;
+    for spec in specs {
+        spec.append(&mut archive)?;
+    }
+    archive.allocate_at_end(4);
+    archive.serialize()
+}
+
+/// What `AssetBinary::from_archive` does, through `AssetSpec::from_stream` record by record.
+fn read_by_hand(archive: &BinArchive) -> Result<AssetBinary, mila::ArchiveError> {
+    let mut reader = mila::BinArchiveReader::new(archive, 0);
+    let flags = reader.read_u32()?;
+    let mut specs = Vec::new();
+    loop {
+        let before = reader.tell();
+        match AssetSpec::from_stream(&mut reader) {
+            Ok(spec) => specs.push(spec),
+            Err(_) => break,
+        }
+        if reader.tell() <= before {
+            break;
+        }
+    }
+    Ok(AssetBinary { flags, specs })
+}
+
+fn run_hand(f: &[&str]) -> String {
+    let endian = if f[2] == "BE" { Endian::Big } else { Endian::Little };
+    let flags: u32 = f[3].parse().unwrap();
+    let specs: Vec<AssetSpec> = f[4..].iter().map(|s| spec_of(s)).collect();
+    match no_panic(|| serialize_by_hand(flags, &specs, endian)) {
+        Err(_) => "panic".to_string(),
+        Ok(Err(_)) => "err".to_string(),
+        Ok(Ok(bytes)) => match no_panic(|| BinArchive::from_bytes(&bytes, endian)) {
+            Err(_) => format!("ok ? {} rr-panic", hex(&bytes)),
+            Ok(Err(_)) => format!("ok ? {} rr-err", hex(&bytes)),
+            Ok(Ok(archive)) => {
+                let head = format!("ok {} {}", archive.size(), hex(&bytes));
+                match no_panic(|| (AssetBinary::from_archive(&archive), read_by_hand(&archive))) {
+                    Err(_) => format!("{} rr-panic", head),
+                    Ok((Err(_), _)) | Ok((_, Err(_))) => format!("{} rr-err", head),
+                    Ok((Ok(again), Ok(streamed))) => {
+                        if show_binary(&again) != show_binary(&streamed) {
+                            return format!("{} rr-diff {} {}", head, show_binary(&again), show_binary(&streamed));
+                        }
+                        let re = match no_panic(|| serialize_by_hand(again.flags, &again.specs, endian)) {
+                            Err(_) => "panic".to_string(),
+                            Ok(Err(_)) => "err".to_string(),
+                            Ok(Ok(b2)) => {
+                                if b2 == bytes {
+                                    "same".to_string()
+                                } else {
+                                    hex(&b2)
+                                }
+                            }
+                        };
+                        format!("{} rr-ok {} {}", head, show_binary(&again), re)
+                    }
+                }
+            }
+        },
+    }
 }
 
 pub fn run_line(_st: &mut super::State, line: &str) -> String {
     let f: Vec<&str> = line.split(' ').collect();
     let id = f[0];
+    if f[1] == "asset-hand" {
+        return format!("{} {}", id, run_hand(&f));
+    }
     let binary = AssetBinary {
         flags: f[2].parse().unwrap(),
         specs: f[3..].iter().map(|s| spec_of(s)).collect(),
